@@ -203,12 +203,19 @@ def check_property(prop, tier, seed):
     vnames = [u for u in pinfo.get("verus", []) if not only or u in only]
     knames = [k for k in pinfo.get("kani", []) if not only or k in only]
     units = [load_unit(reg.VERUS_UNITS[u]) for u in vnames]
-    results = run_units_parallel(units, tier, seed)
     kres = []
+    kfut = None
+    kex = None
     if knames:
         from . import kani_run
 
-        kres = kani_run.run_groups(knames, prop, tier, seed)
+        # the Kani groups run concurrently with the Verus units
+        kex = cf.ThreadPoolExecutor(max_workers=1)
+        kfut = kex.submit(kani_run.run_groups, knames, prop, tier, seed)
+    results = run_units_parallel(units, tier, seed)
+    if kfut is not None:
+        kres = kfut.result()
+        kex.shutdown()
     known = known_findings()
     violations = []
     known_hits = []
